@@ -481,16 +481,20 @@ Definition ticket_keys (c : config) (now : Z) (rnd : bytes) : res (list tkey * c
   end.
 
 (* Config.EncryptTicket / Config.DecryptTicket as called on a Config (public API) *)
-Definition cfg_encrypt (c : config) (now : Z) (rnd : bytes) (s : state) : res (bytes * config * bytes) :=
-  do (keys, c, rnd) <- ticket_keys c now rnd;
-  do b <- state_bytes s;
-  match keys with
-  | [] => Err E_NOKEYS
-  | _ =>
-    match take_rand ivLen rnd with
-    | None => Err E_RAND
-    | Some (iv, rnd') => do t <- encrypt_ticket keys iv b; Ok (t, c, rnd')
+Definition cfg_encrypt (c : config) (now : Z) (rnd : bytes) (s : state) : res (res bytes * config * bytes) :=
+  do (keys, c, rnd) <- ticket_keys c now rnd;      (* may panic; its side effects on c persist *)
+  match state_bytes s with
+  | Ok b =>
+    match keys with
+    | [] => Ok (Err E_NOKEYS, c, rnd)
+    | _ =>
+      match take_rand ivLen rnd with
+      | None => Ok (Err E_RAND, c, [])
+      | Some (iv, rnd') => Ok (encrypt_ticket keys iv b, c, rnd')
+      end
     end
+  | Err e => Ok (Err e, c, rnd)
+  | Panic p => Panic p
   end.
 
 Definition cfg_decrypt (c : config) (now : Z) (rnd : bytes) (t : bytes) : res (option state * config * bytes) :=
